@@ -194,3 +194,59 @@ class HasTraitsCloneTraits(Contract):
 
     def covers(self, cx, ov, info):
         return [("clones", lambda k, p, s: k == "return"), ("fails-midway", lambda k, p, s: k == "raise")]
+
+
+@register
+class HasTraitsGetStateFilter(Contract):
+    """__getstate__ -- which traits are pickled.  'transient traits are back at their defaults' after unpickling because they were
+    never written into the state: the state dictionary is collected by trait_get(transient=is_none) -- ONE metadata filter,
+    keyed 'transient', whose test is the library's is_none (metadata absent) -- so a trait marked transient=True is left out and
+    every trait without that mark is included.  CUT POINT: the first statement of the real __getstate__ (the delegate merge and the
+    ISerializable check that follow only add to / veto the dictionary and are not under contract)."""
+    path = PATH
+    qualname = "HasTraits.__getstate__"
+    properties = ("C14",)
+    class_paths = (PATH,)
+    assumptions = ("A-PY", "cut point: the statement that builds the state dictionary; trait_get is used as a summary")
+
+    @property
+    def cid(self):
+        return "%s:%s<state filter cut point>" % (self.path, self.qualname)
+
+    def segment(self, fn):
+        import ast
+        body = [s for s in fn.body if not (isinstance(s, ast.Expr) and isinstance(s.value, ast.Constant))]
+        first = body[0] if body else None
+        if not (isinstance(first, ast.Assign) and len(first.targets) == 1 and isinstance(first.targets[0], ast.Name) and first.targets[0].id == "result"):
+            raise Unsupported("__getstate__ no longer starts by building `result`")
+        returns = [n for n in ast.walk(fn) if isinstance(n, ast.Return)]
+        if not all(isinstance(r.value, ast.Name) and r.value.id == "result" for r in returns) or not returns:
+            raise Unsupported("__getstate__ no longer returns `result`")
+        return [first]
+
+    def configure(self, cx, I, ov):
+        self.state = z3.Const("state_dictionary", Val)
+
+        def trait_get(I2, o, st, k):
+            return k(VFunc("opaque", name="trait_get", apply=lambda I3, a, kw, s, kk: kk(VElem(self.state), s.gset("query", s.ghost.get("query", ()) + ((tuple(a), dict(kw)),)))), st)
+        cx.elem_attrs["trait_get"] = trait_get
+
+    def segment_env(self, cx, I, ov):
+        return St(), {"self": VElem(z3.Const("self_object", Val))}, dict(witness={})
+
+    def post(self, cx, I, ov, info, kind, payload, st):
+        if kind == "raise":
+            return [("exc-free", z3.BoolVal(False))]
+        q = st.ghost.get("query", ())
+        out = [("post:the-state-is-collected-by-one-trait_get-query", z3.BoolVal(len(q) == 1))]
+        if len(q) == 1:
+            a, kw = q[0]
+            f = kw.get("transient")
+            ok = not a and set(kw) == {"transient"} and isinstance(f, VFunc) and f.kind == "repo" and f.name == "is_none"
+            out.append(("post:the-only-filter-is-transient-metadata-absent-(is_none)", z3.BoolVal(bool(ok))))
+            r = st.env.get("result")
+            out.append(("post:that-dictionary-is-the-state", z3.BoolVal(isinstance(r, VElem) and r.t.eq(self.state))))
+        return out
+
+    def covers(self, cx, ov, info):
+        return [("collects", lambda k, p, s: True)]
